@@ -252,7 +252,10 @@ RULE = ('Model-based stateful testing over configurations always_connect x '
         'with the right reason, nothing delivered afterwards, other '
         "namespaces of the transport unaffected). Non-trivial: a refusal "
         'carrying data, or >=2 namespaces on one transport with one of them '
-        'ended.')
+        'ended. Also generated: server.disconnect() whose DISCONNECT cannot '
+        'be sent any more (SocketIsClosedError) followed by the loss, and, '
+        'in the schedule exploration, a disconnect() of the client of the '
+        "transport's other namespace while the loss is being handled.")
 ASSUMPTIONS = [
     'a bare top-level number is not generated as auth payload (CONNECT '
     'carries an object; a bare number is ambiguous in the v5 header, see C01)',
